@@ -426,3 +426,28 @@ def coqchk(pid, timeout=3600):
     axioms = [] if secs[0] == "<none>" else [l.strip() for l in secs[0].splitlines() if l.strip()]
     ok = all(x == "<none>" for x in secs[1:]) and all(a in ALLOWED_AXIOMS for a in axioms)
     return ok, axioms, "; ".join(secs)
+
+
+def source_hash(path):
+    """sha1 of a Rust source file with comments and all whitespace removed ('' if missing)."""
+    try:
+        txt = open(path).read()
+    except OSError:
+        return ""
+    txt = re.sub(r"//[^\n]*", "", txt)
+    txt = re.sub(r"/\*.*?\*/", "", txt, flags=re.S)
+    return hashlib.sha1(re.sub(r"\s+", "", txt).encode()).hexdigest()
+
+
+def changed_anchor_files(pid):
+    """Anchored source files of property pid whose normalised hash differs from the recorded one."""
+    try:
+        base = json.load(open(os.path.join(VERIF, "vlib", "source_hashes.json")))
+        anchors = []
+        for l in open(os.path.join(VERIF, "properties.jsonl")):
+            p = json.loads(l)
+            if p["id"] == pid:
+                anchors = p["anchors"]["files"]
+    except Exception:
+        return []
+    return [f for f in anchors if source_hash(os.path.join(REPO, f)) != base.get(f)]
